@@ -2,6 +2,7 @@
 from __future__ import annotations
 
 import copy
+import dataclasses
 import os
 from typing import Any, Dict, List
 
@@ -32,6 +33,17 @@ def observe_graph(cp: Any, with_nodes: bool = True) -> Dict[str, Any]:
         "event_to_start_node_map": sorted([int(k), int(v)] for k, v in getattr(cp, "event_to_start_node_map", {}).items()),
         "event_to_end_node_map": sorted([int(k), int(v)] for k, v in getattr(cp, "event_to_end_node_map", {}).items()),
     }
+    # the edge set must behave as a set of its elements: an equal, freshly built edge is found in it
+    es = getattr(cp, "critical_path_edges_set", set())
+    lost = 0
+    for e in list(es):
+        try:
+            twin = dataclasses.replace(e)
+        except Exception:  # noqa: BLE001
+            continue
+        if twin != e or hash(twin) != hash(e) or twin not in es:
+            lost += 1
+    obs["edges_set_lookup_failures"] = lost
     if with_nodes:
         obs["node_list"] = [[int(n.idx), int(n.ev_idx), canon_value(n.ts), bool(n.is_start), bool(n.is_blocking)]
                             for n in getattr(cp, "node_list", [])]
